@@ -1,5 +1,6 @@
 """Trusted specification of NPath texts (docs/cli.md and the statements of C09 / C12)."""
 from pvc.spec import fold, pure
+from specs.nixlex import dq_plain, dq_state, dq_decode  # noqa: F401
 
 
 # ---- scope selectors: leading '@' characters ------------------------------------------------
@@ -112,3 +113,23 @@ def np_result(p):
 from pvc.spec import absorbing  # noqa: E402
 
 absorbing(np_step, "mode == NP_FAIL")
+
+
+NIX_KEYWORDS = ("if", "then", "else", "assert", "with", "let", "in", "rec", "inherit", "or")
+
+
+@z3spec(lambda ev, s: VBool(_z3.Or(*[s.t == _z3.StringVal(k) for k in NIX_KEYWORDS])))
+def is_keyword(s):
+    """s is a reserved word of the Nix grammar (cannot be written bare as an attribute name)."""
+    return s in NIX_KEYWORDS
+
+
+@pure
+def attr_spelling(text, name, quoted):
+    """`text` is a faithful spelling of the attribute `name` in Nix source: the bare name when that
+    is possible and the segment was not quoted, otherwise a double-quoted string literal that the
+    Nix lexer reads back as exactly `name` (no interpolation)."""
+    if not quoted and is_bare_name(name) and not is_keyword(name):
+        return text == name
+    return (len(text) >= 2 and text[0] == '"' and text[len(text) - 1] == '"'
+            and dq_plain(dq_state(text[1:len(text) - 1])) and dq_decode(text[1:len(text) - 1]) == name)
